@@ -978,7 +978,7 @@ def CASES(tier, seed):
                 for qc in (1, -1):
                     if qc == -1 and prep != 'none':
                         continue
-                    sizes = [1, 2, 1] if len(mods) == 1 else [1, 2]
+                    sizes = [2, 1, 2] if len(mods) == 1 else [1, 2]
                     add(f'LegCharge[{fmt},mod={mods},qconj={qc},prep={prep}]', 'leg_case', sizes=sizes, mods=mods, qconj=qc, fmt=fmt, prep=prep)
         add(f'LegCharge[{fmt},mod=[],trivial]', 'leg_case', sizes=[3], mods=[], qconj=1, fmt=fmt)
     for fmt in FORMATS + ('copy', ):
